@@ -494,6 +494,156 @@ class C08(Check):
                                                 dict(spec, kind="sim", node=nm, t=t, observed=bal, expected=0.0)))
         return failures
 
+    # ------------------------------------------------------------------ (e) pause / edit the leaks / continue; refused add_leak
+    def _edit_case(self, ctx, wntr, spec):
+        """spec: mode, hstep, report, duration, leaks {node: (area, cd, start, end)}, edits0 / edits1: lists of
+        ("remove", node) | ("add", node, area, cd, start, end) | ("refused_add", node, area, cd, start, end), pause (seconds or None),
+        same_sim (continue with the SAME WNTRSimulator object or a new one).  edits0 run before the first run, edits1 during
+        the pause.  Every reported step is judged by the formula with the parameters of the leak that is registered at that
+        time, zero outside its window / after removal, and by the node mass balance."""
+        failures = []
+        wn = small_net(wntr, spec["mode"], njunc=3)
+        wn.options.time.hydraulic_timestep = spec["hstep"]
+        wn.options.time.report_timestep = spec["report"]
+        wn.options.time.pattern_timestep = spec["hstep"]
+        state = {}
+        edited = {}
+        for nm, (area, cd, st, en) in spec["leaks"].items():
+            wn.get_node(nm).add_leak(wn, area, cd, st, en)
+            state[nm] = (area, cd, st, en)
+
+        def apply(edits, phase):
+            for ed in edits:
+                nm = ed[1]
+                node = wn.get_node(nm)
+                if ed[0] == "remove":
+                    node.remove_leak(wn)
+                    state[nm] = None
+                    edited[nm] = "remove-leak-during-pause" if phase else "remove-leak-incomplete"
+                    ctx.count("edit:remove:" + ("pause" if phase else "before"))
+                elif ed[0] == "add":
+                    node.add_leak(wn, ed[2], ed[3], ed[4], ed[5])
+                    state[nm] = tuple(ed[2:6])
+                    edited[nm] = "leak-added-during-pause" if phase else "leak-window"
+                    ctx.count("edit:add:" + ("pause" if phase else "before"))
+                else:
+                    try:
+                        node.add_leak(wn, ed[2], ed[3], ed[4], ed[5])
+                        ctx.count("edit:refused_add:not-refused")
+                        state[nm] = "unknown"
+                    except ValueError:
+                        # refused: the leak that is still registered keeps ITS area and coefficient
+                        edited[nm] = "refused-add-leak-changed-parameters"
+                        ctx.count("edit:refused_add:" + ("pause" if phase else "before"))
+
+        frames = []
+        try:
+            apply(spec.get("edits0", []), 0)
+            states = [dict(state)]
+            sim = wntr.sim.WNTRSimulator(wn)
+            wn.options.time.duration = spec["pause"] if spec.get("pause") is not None else spec["duration"]
+            frames.append(sim.run_sim())
+            if spec.get("pause") is not None:
+                apply(spec.get("edits1", []), 1)
+                states.append(dict(state))
+                wn.options.time.duration = spec["duration"]
+                frames.append((sim if spec.get("same_sim") else wntr.sim.WNTRSimulator(wn)).run_sim())
+                ctx.count("edit:continue:" + ("same-simulator" if spec.get("same_sim") else "new-simulator"))
+        except Exception as e:
+            ctx.count("sim_error:" + type(e).__name__)
+            return failures
+        ctx.count("sim_ok")
+        seen_t = set()
+        for fi, res in enumerate(frames):
+            if res.error_code is not None:
+                ctx.count("sim_not_converged")
+            ld, pr, dm, fl = res.node["leak_demand"], res.node["pressure"], res.node["demand"], res.link["flowrate"]
+            for t in ld.index:
+                t = int(t)
+                if fi == 1 and t <= spec["pause"] and t in seen_t:
+                    continue
+                seen_t.add(t)
+                for nm in list(wn.junction_name_list) + list(wn.tank_name_list):
+                    kind = "tank" if nm == "T" else "junction"
+                    q, p = float(ld.loc[t, nm]), float(pr.loc[t, nm])
+                    stt = states[fi].get(nm)
+                    if stt == "unknown":
+                        continue
+                    was_edited = nm in edited and (fi == 1 or edited[nm] in ("refused-add-leak-changed-parameters", "leak-window", "remove-leak-incomplete"))
+                    key = edited[nm] if was_edited else "leak-window-%s" % kind
+                    active = stt is not None and stt[2] is not None and stt[2] <= t and (stt[3] is None or t < stt[3])
+                    ctx.case(("edit", spec["mode"], kind, "in" if active else "out", edited.get(nm), fi, bool(spec.get("same_sim"))), nontrivial=active or nm in edited)
+                    ctx.count("editpoint:" + ("in" if active else "out"))
+                    if active:
+                        ex = stt[1] * stt[0] * math.sqrt(G2 * p) if p >= 1e-4 else (0.0 if p <= 0 else None)
+                        if ex is not None and abs(q - ex) > 2e-6 + 1e-9 * abs(ex):
+                            failures.append(Failure(key if key != "leak-window" else "leak-window-%s" % kind,
+                                                    "leak at %s (registered: area %r, Cd %r, window [%r, %r)) active at t=%d: reported leak_demand %r, Cd*A*sqrt(2g*%r) = %r"
+                                                    % (nm, stt[0], stt[1], stt[2], stt[3], t, q, p, ex), dict(spec, kind="edit", node=nm, t=t, observed=q, expected=ex)))
+                    elif q != 0.0:
+                        failures.append(Failure(key if key != "leak-window" else "leak-window-%s" % kind,
+                                                "leak at %s must be inactive at t=%d (registered leak: %r) but reported leak_demand %r" % (nm, t, stt, q),
+                                                dict(spec, kind="edit", node=nm, t=t, observed=q, expected=0.0)))
+                    ins = sum(float(fl.loc[t, l]) for l in wn.get_links_for_node(nm, "INLET"))
+                    outs = sum(float(fl.loc[t, l]) for l in wn.get_links_for_node(nm, "OUTLET"))
+                    bal = ins - outs - float(dm.loc[t, nm]) - q
+                    if abs(bal) > 5e-6:
+                        failures.append(Failure("leak-mass-balance-%s" % kind,
+                                                "node %s t=%d (%s): inflow - outflow - demand - leak_demand = %r" % (nm, t, edited.get(nm, "not edited"), bal),
+                                                dict(spec, kind="edit", node=nm, t=t, observed=bal, expected=0.0)))
+        return failures
+
+    DIRECTED_EDITS = [
+        # pause with active leaks; remove one, remove + re-add another with other parameters, add a leak on a new node; SAME simulator
+        {"mode": "DD", "hstep": 3600, "report": 3600, "duration": 8 * 3600, "pause": 3 * 3600, "same_sim": True,
+         "leaks": {"J1": (1e-4, 0.6, 3600, None), "J2": (2e-4, 0.75, 7200, None), "T": (1e-4, 0.6, 0, None)},
+         "edits1": [("remove", "J1"), ("add", "J1", 5e-4, 0.9, 5 * 3600, 7 * 3600), ("remove", "J2"), ("remove", "T"),
+                    ("add", "T", 6e-4, 0.8, 6 * 3600, 7 * 3600), ("add", "J0", 3e-4, 0.7, 4 * 3600, None)]},
+        {"mode": "PDD", "hstep": 1800, "report": "ALL", "duration": 6 * 1800, "pause": 2 * 1800, "same_sim": True,
+         "leaks": {"J0": (0.001, 0.75, 0, None), "T": (0.002, 0.6, 900, None)},
+         "edits1": [("remove", "J0"), ("remove", "T"), ("add", "T", 0.004, 1.0, 3 * 1800 + 77, 5 * 1800)]},
+        # the same with a NEW simulator object
+        {"mode": "DD", "hstep": 3600, "report": 3600, "duration": 6 * 3600, "pause": 2 * 3600, "same_sim": False,
+         "leaks": {"J1": (1e-4, 0.6, 0, None), "T": (1e-4, 0.6, 3600, None)},
+         "edits1": [("remove", "J1"), ("add", "J1", 4e-4, 1.0, 4 * 3600, None), ("remove", "T"), ("add", "J2", 3e-4, 0.7, 3 * 3600, 5 * 3600)]},
+        # a REFUSED second add_leak (control names taken) with another area / Cd: the registered leak keeps its parameters
+        {"mode": "DD", "hstep": 3600, "report": 3600, "duration": 3 * 3600, "pause": None,
+         "leaks": {"J1": (1e-4, 0.6, 0, 7200), "T": (2e-4, 0.6, 3600, None)},
+         "edits0": [("refused_add", "J1", 9e-4, 1.0, 3600, None), ("refused_add", "T", 8e-4, 0.9, 0, 3600)]},
+        {"mode": "PDD", "hstep": 3600, "report": 3600, "duration": 5 * 3600, "pause": 2 * 3600, "same_sim": True,
+         "leaks": {"J2": (2e-4, 0.75, 3600, None), "T": (1e-4, 0.8, 0, 4 * 3600)},
+         "edits1": [("refused_add", "J2", 7e-4, 0.5, 3 * 3600, None), ("refused_add", "T", 5e-4, 1.0, None, 3 * 3600)]},
+    ]
+
+    def _gen_edit_specs(self, ctx, n):
+        rng = ctx.rng
+        specs = [dict(d) for d in self.DIRECTED_EDITS]
+        for _ in range(n):
+            hstep = rng.choice([3600, 1800])
+            nst = rng.randint(4, 7)
+            kp = rng.randint(1, nst - 2)
+            nodes = rng.sample(["J0", "J1", "J2", "T"], rng.randint(1, 3))
+            leaks, edits0, edits1 = {}, [], []
+            for nm in nodes:
+                st = rng.choice([0, hstep, hstep // 2, kp * hstep - 7])
+                en = rng.choice([None, None, (kp + 1) * hstep, nst * hstep + 5])
+                leaks[nm] = (rng.choice([1e-4, 5e-4, 0.001]), rng.choice([0.6, 0.75, 1.0]), st, en)
+            for nm in ["J0", "J1", "J2", "T"]:
+                r = rng.random()
+                newp = (rng.choice([2e-4, 8e-4, 0.002]), rng.choice([0.5, 0.9]), kp * hstep + rng.choice([hstep, hstep // 2 + 11, 2 * hstep]), rng.choice([None, nst * hstep - 3]))
+                if nm in leaks:
+                    if r < 0.3:
+                        edits1.append(("remove", nm))
+                    elif r < 0.6:
+                        edits1 += [("remove", nm), ("add", nm) + newp]
+                    elif r < 0.8:
+                        (edits0 if rng.random() < 0.5 else edits1).append(("refused_add", nm, newp[0], newp[1], newp[2], None))
+                elif r < 0.35:
+                    edits1.append(("add", nm) + newp)
+            specs.append({"mode": rng.choice(["DD", "PDD"]), "hstep": hstep, "report": rng.choice(["ALL", hstep]), "duration": nst * hstep,
+                          "pause": kp * hstep, "same_sim": rng.random() < 0.6, "leaks": leaks, "edits0": edits0, "edits1": edits1})
+        return specs
+
     DIRECTED_SIMS = [
         # tank + junction leak in PDD, windows on the grid
         {"mode": "PDD", "hstep": 3600, "report": 3600, "duration": 4 * 3600, "leaks": {"T": (0.01, 0.6, 3600, 10800), "J1": (0.002, 0.75, 0, 7200)}},
@@ -572,6 +722,8 @@ class C08(Check):
             failures += fs
             if len(ctx.samples) < 4:
                 ctx.sample({k: spec[k] for k in ("mode", "hstep", "report", "duration", "leaks", "isolate", "rerun", "high") if k in spec} | {"pause": spec.get("pause"), "failures": len(fs)})
+        for spec in self._gen_edit_specs(ctx, 4 if ctx.quick else 80):
+            failures += self._edit_case(ctx, wntr, spec)
         failures.sort(key=lambda x: len(json.dumps(x.replay, default=str)))
         return failures, broken
 
@@ -591,6 +743,8 @@ class C08(Check):
         failures += f
         for spec in self._gen_sim_specs(ctx, 40):
             failures += self._sim_case(ctx, wntr, spec)
+        for spec in self._gen_edit_specs(ctx, 30):
+            failures += self._edit_case(ctx, wntr, spec)
         return failures
 
     def replay(self, ctx, path):
@@ -604,6 +758,12 @@ class C08(Check):
             spec = {k: rp[k] for k in ("mode", "hstep", "report", "duration", "pause", "remove", "isolate", "rerun", "high") if k in rp and rp[k] is not None}
             spec["leaks"] = {n: tuple(v) for n, v in rp["leaks"].items()}
             fs = self._sim_case(ctx, wntr, spec)
+        elif rp.get("kind") == "edit":
+            spec = {k: rp[k] for k in ("mode", "hstep", "report", "duration", "pause", "same_sim") if k in rp}
+            spec["leaks"] = {n: tuple(v) for n, v in rp["leaks"].items()}
+            spec["edits0"] = [tuple(e) for e in rp.get("edits0", [])]
+            spec["edits1"] = [tuple(e) for e in rp.get("edits1", [])]
+            fs = self._edit_case(ctx, wntr, spec)
         elif rp.get("kind") == "leakops":
             fs, _ = self._leak_ops(ctx, wntr, 0, forced=[[tuple(o) for o in rp["ops"]]] * 4)
         else:
